@@ -1,5 +1,6 @@
 import QModel.C18
 import QProofs.Bridge
+import QProofs.Psd
 import Mathlib.Algebra.Star.BigOperators
 import Mathlib.Algebra.Order.BigOperators.Ring.Finset
 import Mathlib.LinearAlgebra.Matrix.ConjTranspose
@@ -12,6 +13,9 @@ import Mathlib.LinearAlgebra.Matrix.NonsingularInverse
 import Mathlib.Analysis.Normed.Algebra.MatrixExponential
 import Mathlib.Analysis.Matrix.Order
 import Mathlib.Analysis.Matrix.PosDef
+import Mathlib.Tactic.Positivity
+import Mathlib.Analysis.SpecialFunctions.Sqrt
+import Mathlib.Tactic.FinCases
 /-! helper lemmas for C18 -/
 open Matrix
 namespace QM.C18
@@ -676,6 +680,247 @@ theorem psd_of_choiCb_kPart_psd (B : Basis ℂ d) (z : Fin (d * d)) (s : ℂ) (h
   exact h1
 end choi
 
+/-! ## the executed scalars form a field: the polymorphic theorems apply literally to the driver's instance -/
+namespace CRat
+@[ext] theorem ext' {a b : CRat} (h1 : a.re = b.re) (h2 : a.im = b.im) : a = b := by
+  cases a; cases b; simp_all
+@[simp] theorem add_re (a b : CRat) : (a + b).re = a.re + b.re := rfl
+@[simp] theorem add_im (a b : CRat) : (a + b).im = a.im + b.im := rfl
+@[simp] theorem sub_re (a b : CRat) : (a - b).re = a.re - b.re := rfl
+@[simp] theorem sub_im (a b : CRat) : (a - b).im = a.im - b.im := rfl
+@[simp] theorem neg_re (a : CRat) : (-a).re = -a.re := rfl
+@[simp] theorem neg_im (a : CRat) : (-a).im = -a.im := rfl
+@[simp] theorem mul_re (a b : CRat) : (a * b).re = a.re * b.re - a.im * b.im := rfl
+@[simp] theorem mul_im (a b : CRat) : (a * b).im = a.re * b.im + a.im * b.re := rfl
+@[simp] theorem zero_re : (0 : CRat).re = 0 := rfl
+@[simp] theorem zero_im : (0 : CRat).im = 0 := rfl
+@[simp] theorem one_re : (1 : CRat).re = 1 := rfl
+@[simp] theorem one_im : (1 : CRat).im = 0 := rfl
+@[simp] theorem natCast_re (n : ℕ) : ((n : CRat)).re = (n : ℚ) := rfl
+@[simp] theorem natCast_im (n : ℕ) : ((n : CRat)).im = 0 := rfl
+@[simp] theorem div_re (a b : CRat) : (a / b).re = (a.re * b.re + a.im * b.im) / (b.re * b.re + b.im * b.im) := rfl
+@[simp] theorem div_im (a b : CRat) : (a / b).im = (a.im * b.re - a.re * b.im) / (b.re * b.re + b.im * b.im) := rfl
+@[simp] theorem conj_re (a : CRat) : (conj a).re = a.re := rfl
+@[simp] theorem conj_im (a : CRat) : (conj a).im = -a.im := rfl
+
+instance : Inv CRat := ⟨fun a => 1 / a⟩
+@[simp] theorem inv_re (a : CRat) : (a⁻¹).re = a.re / (a.re * a.re + a.im * a.im) := by
+  show (1 / a).re = _; simp
+@[simp] theorem inv_im (a : CRat) : (a⁻¹).im = -a.im / (a.re * a.re + a.im * a.im) := by
+  show (1 / a).im = _; simp
+
+theorem abs2_pos {a : CRat} (h : a ≠ 0) : 0 < a.re * a.re + a.im * a.im := by
+  by_contra hc
+  have h0 : a.re * a.re + a.im * a.im = 0 :=
+    le_antisymm (not_lt.mp hc) (add_nonneg (mul_self_nonneg _) (mul_self_nonneg _))
+  have hr : a.re = 0 := by nlinarith [mul_self_nonneg a.re, mul_self_nonneg a.im]
+  have hi : a.im = 0 := by nlinarith [mul_self_nonneg a.re, mul_self_nonneg a.im]
+  exact h (ext' hr hi)
+
+/-- the complex rationals of the executable model form a field (all operations are the model's own instances) -/
+instance instField : Field CRat where
+  add := (· + ·)
+  zero := 0
+  neg := Neg.neg
+  sub := (· - ·)
+  mul := (· * ·)
+  one := 1
+  inv := Inv.inv
+  div := (· / ·)
+  natCast n := (n : CRat)
+  add_assoc a b c := by ext <;> simp <;> ring
+  zero_add a := by ext <;> simp
+  add_zero a := by ext <;> simp
+  add_comm a b := by ext <;> simp <;> ring
+  neg_add_cancel a := by ext <;> simp
+  sub_eq_add_neg a b := by ext <;> simp <;> ring
+  mul_assoc a b c := by ext <;> simp <;> ring
+  one_mul a := by ext <;> simp
+  mul_one a := by ext <;> simp
+  left_distrib a b c := by ext <;> simp <;> ring
+  right_distrib a b c := by ext <;> simp <;> ring
+  mul_comm a b := by ext <;> simp <;> ring
+  zero_mul a := by ext <;> simp
+  mul_zero a := by ext <;> simp
+  natCast_zero := by ext <;> simp
+  natCast_succ n := by ext <;> simp
+  nsmul := nsmulRec
+  zsmul := zsmulRec
+  exists_pair_ne := ⟨0, 1, by intro h; have := congrArg CRat.re h; simp at this⟩
+  mul_inv_cancel a h := by
+    have hp := abs2_pos h
+    have hne : a.re * a.re + a.im * a.im ≠ 0 := ne_of_gt hp
+    ext
+    · simp only [mul_re, inv_re, inv_im, one_re]
+      rw [show a.re * (a.re / (a.re * a.re + a.im * a.im)) - a.im * (-a.im / (a.re * a.re + a.im * a.im))
+        = (a.re * a.re + a.im * a.im) / (a.re * a.re + a.im * a.im) by ring]
+      exact div_self hne
+    · simp only [mul_im, inv_re, inv_im, one_im]
+      field_simp
+      ring
+  inv_zero := by ext <;> simp
+  div_eq_mul_inv a b := by ext <;> simp <;> ring
+  nnqsmul := _
+  nnqsmul_def := fun _ _ => rfl
+  qsmul := _
+  qsmul_def := fun _ _ => rfl
+  nnratCast_def := fun _ => rfl
+  ratCast_def := fun _ => rfl
+
+instance instStar : Star CRat := ⟨conj⟩
+@[simp] theorem star_re (a : CRat) : (star a).re = a.re := rfl
+@[simp] theorem star_im (a : CRat) : (star a).im = -a.im := rfl
+
+instance instStarRing : StarRing CRat where
+  star_involutive a := by ext <;> simp
+  star_mul a b := by ext <;> simp <;> ring
+  star_add a b := by ext <;> simp <;> ring
+
+instance instCharZero : CharZero CRat where
+  cast_injective m n h := by
+    have := congrArg CRat.re h
+    simpa using this
+
+theorem ii_mul_ii : (ii : CRat) * ii = -1 := by ext <;> simp [ii, HasI.ii]
+
+/-- the embedding of the complex rationals into `ℂ` -/
+def toC : CRat →+* ℂ where
+  toFun a := ⟨(a.re : ℝ), (a.im : ℝ)⟩
+  map_one' := by apply Complex.ext <;> simp
+  map_mul' a b := by apply Complex.ext <;> simp [Complex.mul_re, Complex.mul_im]
+  map_zero' := by apply Complex.ext <;> simp
+  map_add' a b := by apply Complex.ext <;> simp
+
+@[simp] theorem toC_re (a : CRat) : (toC a).re = (a.re : ℝ) := rfl
+@[simp] theorem toC_im (a : CRat) : (toC a).im = (a.im : ℝ) := rfl
+theorem toC_star (a : CRat) : toC (star a) = star (toC a) := by
+  apply Complex.ext <;> simp
+end CRat
+
+
+section roundtrip
+variable {K : Type} [Field K] [StarRing K] {d : Nat}
+
+/-- completeness in flattened form: `Σ_a B_a[r] · conj B_a[c] = δ_rc` -/
+theorem flat_complete [HasI K] (B : Basis K d) (z : Fin (d * d)) (s : K) (hB : ONH0 B z s) (r c : Fin (d * d)) :
+    ∑ a, Bf B a r * star (Bf B a c) = if r = c then 1 else 0 := by
+  set U : Matrix (Fin (d * d)) (Fin (d * d)) K := Matrix.of fun a r => star (Bf B a r) with hU
+  have h1 : U * Uᴴ = 1 := by
+    ext a b
+    have := hB.orth a b
+    rw [← hB.herm a] at this
+    simp only [Matrix.trace, Matrix.diag_apply, Matrix.mul_apply, Matrix.conjTranspose_apply] at this
+    rw [Finset.sum_comm] at this
+    simp only [Matrix.mul_apply, Matrix.conjTranspose_apply, hU, Matrix.of_apply, star_star, Matrix.one_apply]
+    rw [sum_pairs]
+    simpa [Bf, Bm] using this
+  have h2 : Uᴴ * U = 1 := mul_eq_one_comm.mp h1
+  have := congrFun (congrFun h2 r) c
+  simpa [Matrix.mul_apply, Matrix.conjTranspose_apply, hU, Matrix.one_apply] using this
+
+/-- `convert_hs` there and back: comp basis → Hermitian basis → comp basis is the identity (orthonormal basis) -/
+theorem toComp_toHerm [HasI K] (B : Basis K d) (z : Fin (d * d)) (s : K) (hB : ONH0 B z s)
+    (L : Mat K (d * d) (d * d)) : toComp B (toHerm B L) = L := by
+  apply Mat.ext'; intro r c
+  rw [toComp_get]
+  simp only [toHerm_get]
+  have key : ∀ r' c', (∑ b, ∑ a, Bf B a r * (star (Bf B a r') * L.get r' c' * Bf B b c') * star (Bf B b c))
+      = (∑ a, Bf B a r * star (Bf B a r')) * L.get r' c' * (∑ b, Bf B b c' * star (Bf B b c)) := by
+    intro r' c'
+    rw [Finset.sum_mul, Finset.sum_mul, Finset.sum_comm]
+    apply Finset.sum_congr rfl; intro a _
+    rw [Finset.mul_sum]
+    apply Finset.sum_congr rfl; intro b _
+    ring
+  calc (∑ b, ∑ a, Bf B a r * (∑ c', ∑ r', star (Bf B a r') * L.get r' c' * Bf B b c') * star (Bf B b c))
+      = ∑ c', ∑ r', (∑ b, ∑ a, Bf B a r * (star (Bf B a r') * L.get r' c' * Bf B b c') * star (Bf B b c)) := by
+        simp only [Finset.mul_sum, Finset.sum_mul]
+        rw [Finset.sum_comm]
+        conv_lhs => arg 2; ext a; rw [Finset.sum_comm]
+        rw [Finset.sum_comm]
+        apply Finset.sum_congr rfl; intro c' _
+        conv_lhs => arg 2; ext a; rw [Finset.sum_comm]
+        rw [Finset.sum_comm]
+        apply Finset.sum_congr rfl; intro r' _
+        rw [Finset.sum_comm]
+    _ = L.get r c := by
+        simp only [key, flat_complete B z s hB]
+        simp [Finset.sum_ite_eq, eq_comm]
+end roundtrip
+
+section cmap
+/-- entrywise embedding of complex-rational matrices into `ℂ` -/
+def mapC {m n : Nat} (A : Mat CRat m n) : Matrix (Fin m) (Fin n) ℂ := A.toM.map CRat.toC
+
+theorem mapC_apply {m n : Nat} (A : Mat CRat m n) (i : Fin m) (j : Fin n) : mapC A i j = CRat.toC (A.get i j) := rfl
+theorem mapC_mul {m n k : Nat} (A : Mat CRat m n) (B : Mat CRat n k) : mapC (A.mul B) = mapC A * mapC B := by
+  simp [mapC, Mat.toM_mul, Matrix.map_mul]
+theorem mapC_sub {m n : Nat} (A B : Mat CRat m n) : mapC (A.sub B) = mapC A - mapC B := by
+  ext i j; simp [mapC, Mat.sub]
+theorem mapC_adj {m n : Nat} (A : Mat CRat m n) : mapC (adj A) = (mapC A)ᴴ := by
+  ext i j
+  simp only [mapC, Matrix.map_apply, Mat.toM_apply, Matrix.conjTranspose_apply]
+  rw [show (adj A).get i j = star (A.get j i) from by simp [adj]; rfl]
+  exact CRat.toC_star _
+theorem mapC_one {n : Nat} : mapC (Mat.one : Mat CRat n n) = 1 := by
+  ext i j; simp [mapC, Mat.one, Matrix.one_apply, apply_ite]
+
+theorem mapC_clipK {n : Nat} (lam : Vec CRat n) (V : Mat CRat n n) :
+    mapC (clipK lam V) = mapC V * Matrix.diagonal (fun i => CRat.toC (if cltZero (lam.get i) then 0 else lam.get i))
+      * (mapC V)ᴴ := by
+  unfold clipK
+  rw [mapC_mul, mapC_mul, mapC_adj]
+  congr 2
+  ext i j
+  by_cases h : i = j
+  · subst h; simp [mapC, diagC, Vec.get_ofFn]
+  · simp [mapC, diagC, h]
+
+open scoped ComplexOrder in
+/-- the clipped dissipator matrix of `calc_proj_ineq_constraint` is PSD whenever numpy's eigenvalues are real — for
+ANY eigenvector matrix `V` (no unitarity needed) -/
+theorem mapC_clipK_psd {n : Nat} (lam : Vec CRat n) (V : Mat CRat n n) (hre : ∀ i, (lam.get i).im = 0) :
+    (mapC (clipK lam V)).PosSemidef := by
+  rw [mapC_clipK]
+  have hd : (fun i => CRat.toC (if cltZero (lam.get i) then 0 else lam.get i))
+      = fun i => (((max ((lam.get i).re : ℝ) 0 : ℝ)) : ℂ) := by
+    funext i
+    apply Complex.ext
+    · by_cases hc : cltZero (lam.get i) = true
+      · have : (lam.get i).re < 0 := by
+          simp only [cltZero, decide_eq_true_eq] at hc
+          rcases hc with h | ⟨_, h⟩
+          · exact h
+          · rw [hre i] at h; exact absurd h (lt_irrefl _)
+        have h' : ((lam.get i).re : ℝ) ≤ 0 := by exact_mod_cast le_of_lt this
+        simp [hc, max_eq_right h']
+      · have hge : 0 ≤ (lam.get i).re := by
+          simp only [cltZero, decide_eq_true_eq, not_or, not_lt] at hc
+          exact hc.1
+        have h' : (0 : ℝ) ≤ ((lam.get i).re : ℝ) := by exact_mod_cast hge
+        simp [hc, max_eq_left h']
+    · by_cases hc : cltZero (lam.get i) = true <;> simp [hc, hre i]
+  rw [hd]
+  exact QM.Psd.conj_diag_psd (𝕜 := ℂ) (mapC V) (fun i => max ((lam.get i).re : ℝ) 0) (fun i => le_max_right _ _)
+end cmap
+
+section jump
+variable {K : Type} [Field K] [StarRing K] {d : Nat}
+
+theorem act_foldl_add (xs : List (Mat K (d * d) (d * d))) (x : Mat K (d * d) (d * d)) (rho : Mat K d d) :
+    (act (xs.foldl Mat.add x) rho).toM = (act x rho).toM + (xs.map fun y => (act y rho).toM).sum := by
+  induction xs generalizing x with
+  | nil => simp
+  | cons y ys ih => simp [List.foldl_cons, ih, act_add, add_assoc]
+
+/-- action of `reduce(add, [f(c) for c in cs])` for a non-empty list -/
+theorem act_lsumM_map (f : Mat K d d → Mat K (d * d) (d * d)) (c : Mat K d d) (cs : List (Mat K d d)) (rho : Mat K d d) :
+    ∃ L, lsumM ((c :: cs).map f) = some L ∧ (act L rho).toM = ((c :: cs).map fun x => (act (f x) rho).toM).sum := by
+  refine ⟨(cs.map f).foldl Mat.add (f c), rfl, ?_⟩
+  rw [act_foldl_add]
+  simp [List.map_map, Function.comp_def]
+end jump
+
 section examples
 /-- the basis `{(1)}` of the one-dimensional system -/
 def basis1 : Basis ℂ 1 := Vec.ofFn fun _ => Mat.one
@@ -702,6 +947,63 @@ theorem rabs_eq_abs (x : ℚ) : rabs x = |x| := by
   · rw [abs_of_neg h]
   · rw [abs_of_nonneg (not_lt.mp h)]
 
+
+/-! ### a non-degenerate instance of `ONH0`: the normalised Pauli basis of one qubit over `ℂ` -/
+/-- `1/√2` -/
+noncomputable def sP : ℂ := ((Real.sqrt 2)⁻¹ : ℝ)
+
+theorem sP_mul_self : sP * sP = 1 / 2 := by
+  unfold sP
+  rw [← Complex.ofReal_mul, ← mul_inv, Real.mul_self_sqrt (by norm_num)]
+  norm_num
+
+theorem star_sP : star sP = sP := by
+  unfold sP; exact Complex.conj_ofReal _
+
+/-- Pauli matrices `I, X, Y, Z` by index -/
+def sigma (a : Nat) (i j : Nat) : ℂ :=
+  match a, i, j with
+  | 0, 0, 0 => 1 | 0, 1, 1 => 1
+  | 1, 0, 1 => 1 | 1, 1, 0 => 1
+  | 2, 0, 1 => -Complex.I | 2, 1, 0 => Complex.I
+  | 3, 0, 0 => 1 | 3, 1, 1 => -1
+  | _, _, _ => 0
+
+/-- the normalised Pauli basis `σ_a/√2` of one qubit -/
+noncomputable def basisPauli : Basis ℂ 2 :=
+  Vec.ofFn fun a => Mat.ofFn fun i j => sP * sigma a.val i.val j.val
+
+theorem Bm_basisPauli (a : Fin (2 * 2)) (i j : Fin 2) :
+    Bm basisPauli a i j = sP * sigma a.val i.val j.val := by
+  simp [Bm, basisPauli, Vec.get_ofFn]
+
+theorem onh0_basisPauli : ONH0 basisPauli ⟨0, by decide⟩ sP where
+  herm a := by
+    ext i j
+    rw [Matrix.conjTranspose_apply, Bm_basisPauli, Bm_basisPauli, star_mul', star_sP]
+    congr 1
+    fin_cases a <;> fin_cases i <;> fin_cases j <;> simp [sigma]
+  orth a b := by
+    simp only [Matrix.trace, Matrix.diag_apply, Matrix.mul_apply, Bm_basisPauli, Fin.sum_univ_two]
+    have h := sP_mul_self
+    fin_cases a <;> fin_cases b <;> simp [sigma] <;>
+      first
+        | linear_combination (exp := 1) 2 * h
+        | linear_combination (exp := 1) 2 * h - 2 * sP ^ 2 * Complex.I_sq
+  b0 := by
+    ext i j
+    rw [Bm_basisPauli]
+    fin_cases i <;> fin_cases j <;> simp [sigma, Matrix.one_apply]
+  z0 := rfl
+  snorm := by
+    rw [sP_mul_self]; norm_num
+
+/-- the Pauli matrix `X` as a model matrix (a Hermitian, traceless test Hamiltonian) -/
+def matX : Mat ℂ 2 2 := Mat.ofFn fun i j => sigma 1 i.val j.val
+
+theorem matX_herm : matX.toMᴴ = matX.toM := by
+  ext i j
+  fin_cases i <;> fin_cases j <;> simp [matX, sigma, Matrix.conjTranspose_apply]
 end examples
 
 end QM.C18
